@@ -34,6 +34,36 @@ func runC16(t *testing.T, c simrt.Chooser, o Opts) *Out {
 		sc.World.NicStallEvery = 1 + p.n("stallevery", 7)
 		sc.World.NicStallFor = p.dur("stallfor", time.Microsecond, 20*time.Millisecond).String()
 	}
+	var outStall time.Duration
+	flood := p.pct("replyflood", 2)
+	if flood {
+		// more replies than the result buffers and any fixed-size pool can hold, printed slowly:
+		// 2048 open ports answer at once, stdout needs 1 ms per record, the exit delay is 30 s
+		s2 := &scanSpec{Cmd: []string{"tcp", "syn"}, Kind: "tcp", Mode: "subnet", JSON: true, GwMAC: gwMAC, ExitDelay: "30s"}
+		s2.Subnet = mkCIDR(ipU32("198.51.96.0"), 21)
+		s2.SubnetArg = s2.Subnet.String()
+		pt := 1 + p.n("floodport", 65535)
+		s2.Ports = []portRange{{pt, pt}}
+		w2 := s2.world()
+		w2.NumCPU = sc.World.NumCPU
+		w2.onWrite, w2.onFilter = sc.World.onWrite, sc.World.onFilter
+		sc.Spec, sc.World = s2, w2
+		sc.exitDelay, sc.ExitDelay = 30*time.Second, "30s"
+		sc.plan.sh = shapeOf(s2)
+		sc.plan.alivePct, sc.plan.openPct, sc.plan.maxDelay, sc.plan.latePct, sc.plan.unsol = 100, 100, 50*time.Millisecond, 0, nil
+		sc.AlivePct, sc.OpenPct = 100, 100
+		outStall = time.Millisecond
+		sc.World.OutStallEvery, sc.World.OutStallFor = 1, outStall.String()
+		sc.outGrace = 3 * time.Second
+		simrtFault(out, "reply-flood")
+	} else if sc.exitDelay >= 50*time.Millisecond && p.pct("outstall", 20) {
+		// slow stdout: a record may be in the middle of its write when the exit delay ends
+		// (slow, but fast enough that everything that can arrive is printed within a quarter of the delay)
+		outStall = p.dur("outstallfor", time.Nanosecond, sc.exitDelay/time.Duration(4*(2*sc.Spec.nprobes()+len(sc.plan.unsol)+10)))
+		sc.World.OutStallEvery = 1 + p.n("outstallevery", 3)
+		sc.World.OutStallFor = outStall.String()
+		sc.outGrace = sc.exitDelay / 2
+	}
 	nReadErrs := 0
 	if sc.exitDelay >= 300*time.Millisecond && len(sc.Spec.Ports) <= 200 && p.pct("readerrs", 25) {
 		// unknown read errors on the socket while the scan is listening (first 60 % of the exit
@@ -92,7 +122,15 @@ func runC16(t *testing.T, c simrt.Chooser, o Opts) *Out {
 		if s.CloseT < tdone+sc.exitDelay {
 			out.violate("C16.early-exit", sig, "argv %v: socket %d closed at %v, but its last frame left at %v and the exit delay is %v", sc.World.Argv, s.ID, s.CloseT, tdone, sc.exitDelay)
 		}
-		if s.CloseT > tdone+sc.exitDelay && ok {
+		// (a write that is stalled when the delay ends completes first; the logger may also take a few
+		// more queued records before it looks at the cancel)
+		lateWrites := 1
+		for _, wr := range cr.Out {
+			if wr.T > tdone+sc.exitDelay {
+				lateWrites++
+			}
+		}
+		if s.CloseT > tdone+sc.exitDelay+time.Duration(lateWrites)*outStall && ok {
 			out.violate("C16.late-exit", sig, "argv %v: socket %d closed at %v, %v after its last frame left (exit delay %v)", sc.World.Argv, s.ID, s.CloseT, s.CloseT-tdone, sc.exitDelay)
 		}
 	}
